@@ -48,6 +48,9 @@ def gen_case(rng, allow_entity_in_expr):
             e = exprs.gen_expr(rng)
             if rng.random() < .2:
                 e = rng.choice(['o', 'h', 'by', 'nn', 'fl', 'uni', "d['q']"])
+            if rng.random() < .15:
+                # the expression spans lines: '${' and its '}' are never on the same line
+                e = rng.choice(['\n v\n', 'n +\n 1', '\n(n,\n v)[1]\n', 's\n', '\n  uni\n  ', 'str(n) +\n t'])
             if allow_entity_in_expr and rng.random() < .5:
                 e = rng.choice(["'&amp;'", "'x&lt;y'", "'&#65;'", "'&quot;' + v"])
             parts.append(('expr', e))
@@ -88,7 +91,7 @@ def build(parts, env, decode_entities=False):
             e = p[1]
             if decode_entities:
                 e = html.unescape(e)
-            exp.append(exprs.to_text(exprs.evaluate(e, env)))
+            exp.append(exprs.to_text(exprs.evaluate('(' + e.strip() + ')' if '\n' in e else e, env)))
     s = ''.join(src)
     e = ''.join(exp)
     return s, e
@@ -111,7 +114,7 @@ def shape(parts):
             if ch in lit:
                 c.add(name)
         return tuple(sorted(c))
-    return tuple(('L',) + cls(p[1]) if p[0] == 'lit' else ('E',) for p in parts)
+    return tuple(('L',) + cls(p[1]) if p[0] == 'lit' else (('E', 'multi-line') if '\n' in p[1] else ('E',)) for p in parts)
 
 
 def render_real(cls, arg, env, **cfg):
